@@ -125,6 +125,19 @@ TEXT = {
   "note": "Lean kernel; partial: panics inside std/dependencies are outside the model (campaign evidence only).",
   "technique": "Lean 4 theorem over a translator-generated site table + explicit panic semantics + differential campaign under a panic hook",
  },
+ "C11": {
+  "level": "Theorem C11_holds: for every configured process, every readable storage directory of this release, every update script, every list of calls of the other thread "
+           "(launch reports, queries, checks with any responses) and EVERY interleaving of the two threads at the granularity of state-lock acquisitions, after every single "
+           "grant: no number whose boot failure is recorded (before or during the episode) is selected / last good / booting, its ban is never lost and the update does not "
+           "install it (C02); the last good artifact keeps its bytes unless that patch itself fails, is rolled back or re-issued, or another patch boots (C03); every query that "
+           "returns a patch returns the selected patch, valid at that moment (C01). Proof: every section preserves the invariants for arbitrary thread-local data, then "
+           "induction over the schedule (no enumeration). urun_eq_updateCore / crun_eq_checkCore: the sequential model is the section machine run without interruption. "
+           "Tie: a two-thread scheduler parks the real library's threads at the before_lock hook, forces random schedules, and every grant's disk and return values are "
+           "compared with the model's section machine; the same monitor judges the real grants.",
+  "design_ref": "DESIGN.md section 4, C11",
+  "note": "Lean kernel; partial: Mutex semantics and absence of data races outside the lock are trusted.",
+  "technique": "Lean 4 theorem (section-wise invariants, induction over all schedules) + differential correspondence under a deterministic scheduler",
+ },
  "C09": {
   "level": "Theorem C09_holds: for every history whose effective inits configure one public key, the C09 monitor accepts the model trace - after an update "
            "reports n installed, n is the next-boot patch (installed_is_next, every disk); and once every record of number n matches the artifact in place, n stays "
